@@ -296,34 +296,92 @@ func c15Tables(e *bbsEnv) (idx, pwd [][]byte) {
 	return idx, pwd
 }
 
+// c15SemVal reads the value of the passwd semaphore (semctl GETVAL) from the controller, which is attached to the
+// same semaphore as the workers. The workers are alive whenever this is called: SEM_UNDO adjustments of a worker
+// are applied only when it exits and would hide a semaphore that was posted once too often.
+func c15SemVal() int {
+	v, err := cmbbs.Sem.GetVal(0)
+	if err != nil || v < 0 {
+		return 255
+	}
+	return v
+}
+
+// one phase of a scenario: its threads (process of each, id of each) and the order in which they are released.
+// A phase starts when every call of the previous phase has returned; the shared memory, .PASSWDS, the semaphore
+// and the worker processes are the same throughout the scenario.
+type c15Phase struct {
+	procs []int
+	ids   [][]byte
+	sched []int // thread numbers local to the phase
+}
+
+func c15ParsePhase(procsF, idsF, schedF []string) (*c15Phase, bool) {
+	ph := &c15Phase{}
+	for _, p := range procsF {
+		v := int(ai(p))
+		if v < 0 || v > 7 {
+			return nil, false
+		}
+		ph.procs = append(ph.procs, v)
+	}
+	ph.ids = c15Dec(idsF)
+	for _, s := range schedF {
+		ph.sched = append(ph.sched, int(ai(s)))
+	}
+	return ph, len(ph.procs) > 0
+}
+
 // case: 1|mode|procs (one per thread)|ids of the threads + the late id|initial table|schedule
+// = two phases: the scheduled threads, then one registration of the late id issued after all the others returned
 func c15Run(args [][]string) []string {
-	if len(args) != 6 {
+	if len(args) != 6 || len(args[1]) != 1 {
 		return []string{"9"}
 	}
-	e := c15Env
-	mode := int(ai(args[1][0]))
-	procs := make([]int, len(args[2]))
-	nproc := 0
-	for i, p := range args[2] {
-		procs[i] = int(ai(p))
-		if procs[i] < 0 || procs[i] > 7 {
+	ph, ok := c15ParsePhase(args[2], args[3], args[5])
+	if !ok || len(ph.ids) != len(ph.procs)+1 {
+		return []string{"9"}
+	}
+	n := len(ph.procs)
+	late := &c15Phase{procs: []int{0}, ids: ph.ids[n:]}
+	ph.ids = ph.ids[:n]
+	return c15RunPhases(int(ai(args[1][0])), c15Dec(args[4]), []*c15Phase{ph, late})
+}
+
+// case: 3|mode|initial table|procs|ids|schedule|procs|ids|schedule|...  — a history: one (procs, ids, schedule) group per phase
+func c15RunHistory(args [][]string) []string {
+	if len(args) < 6 || (len(args)-3)%3 != 0 || len(args[1]) != 1 {
+		return []string{"9"}
+	}
+	phases := []*c15Phase{}
+	for i := 3; i < len(args); i += 3 {
+		ph, ok := c15ParsePhase(args[i], args[i+1], args[i+2])
+		if !ok || len(ph.ids) != len(ph.procs) {
 			return []string{"9"}
 		}
-		if procs[i]+1 > nproc {
-			nproc = procs[i] + 1
+		phases = append(phases, ph)
+	}
+	return c15RunPhases(int(ai(args[1][0])), c15Dec(args[2]), phases)
+}
+
+// result: 0 trace (t code v)* -1 per thread (code value returned-uid)* -1 lookups -1 index ids -1 .PASSWDS ids
+// trace codes: 1..3 schedule point, 4 returned nil, 5 returned error, 10 released towards a taken semaphore,
+// 11 (t = 99) the semaphore value read by the controller at that moment
+func c15RunPhases(mode int, tab [][]byte, phases []*c15Phase) []string {
+	e := c15Env
+	nproc := 0
+	procs := []int{}
+	ids := [][]byte{}
+	for _, ph := range phases {
+		for _, p := range ph.procs {
+			if p+1 > nproc {
+				nproc = p + 1
+			}
 		}
+		procs = append(procs, ph.procs...)
+		ids = append(ids, ph.ids...)
 	}
-	n := len(procs)
-	ids := c15Dec(args[3])
-	if len(ids) != n+1 || n == 0 {
-		return []string{"9"}
-	}
-	tab := c15Dec(args[4])
-	sched := make([]int, len(args[5]))
-	for i, s := range args[5] {
-		sched[i] = int(ai(s))
-	}
+	n := len(procs) // all threads of all phases, numbered in order
 	c15ResetTable(e, tab)
 
 	events := make(chan c15Event, 64)
@@ -398,20 +456,16 @@ func c15Run(args [][]string) []string {
 			return false
 		}
 	}
-	for t := 0; t < n; t++ {
-		if !mkThread(t, procs[t]) {
-			return []string{"2"}
-		}
-	}
 
 	// phase: 0 not started, 1 passed the existence check, 2 holds the semaphore, 3 before unlock, 4 returned
-	phase := make([]int, n+1)
-	pending := make([]bool, n+1) // released towards PasswdLock while another thread holds the semaphore
-	resCode := make([]int, n+1)  // 1 ok, 2 error
-	resVal := make([]int, n+1)   // uid observed at reg.beforeUnlock | error class
-	retUID := make([]int, n+1)   // uid returned by NewRegister (mode 1)
+	phase := make([]int, n)
+	pending := make([]bool, n) // released towards PasswdLock while another thread holds the semaphore
+	resCode := make([]int, n)  // 1 ok, 2 error
+	resVal := make([]int, n)   // uid observed at reg.beforeUnlock | error class
+	retUID := make([]int, n)   // uid returned by NewRegister (mode 1)
 	trace := []string{}
 	hang := false
+	sample := func() { trace = append(trace, "99", "11", fmt.Sprint(c15SemVal())) }
 	record := func(ev c15Event) {
 		switch ev.code {
 		case 1, 2, 3:
@@ -442,7 +496,7 @@ func c15Run(args [][]string) []string {
 		}
 	}
 	holder := func() int {
-		for u := 0; u <= n; u++ {
+		for u := 0; u < n; u++ {
 			if phase[u] == 2 || phase[u] == 3 {
 				return u
 			}
@@ -461,11 +515,14 @@ func c15Run(args [][]string) []string {
 		if hang || phase[t] == 4 || pending[t] {
 			return
 		}
-		p := 0
-		if t < n {
-			p = procs[t]
-		}
-		fmt.Fprintf(ws[p].in, "go %d\n", t)
+		fmt.Fprintf(ws[procs[t]].in, "go %d\n", t)
+		// every path below ends at a moment when all threads are parked (at a gate, in semop, or returned):
+		// the semaphore value is read there
+		defer func() {
+			if !hang {
+				sample()
+			}
+		}()
 		if phase[t] == 1 && holder() >= 0 {
 			// it blocks in semop(-1): no event until the holder gives the semaphore back
 			pending[t] = true
@@ -499,44 +556,53 @@ func c15Run(args [][]string) []string {
 			record(*lock)
 		}
 	}
-	for _, t := range sched {
-		if t >= 0 && t < n {
-			release(t)
-		}
-	}
-	for guard := 0; guard < 10*n+10 && !hang; guard++ {
-		moved := false
-		for t := 0; t < n; t++ {
-			if phase[t] != 4 && !pending[t] {
-				release(t)
-				moved = true
+	sample() // before anything runs: the semaphore as PasswdInit left it
+	off := 0
+	for pi, ph := range phases {
+		np := len(ph.procs)
+		for t := 0; t < np; t++ {
+			if !mkThread(off+t, ph.procs[t]) {
+				return []string{"2"}
 			}
 		}
-		if !moved {
-			break
+		for _, t := range ph.sched {
+			if t >= 0 && t < np {
+				release(off + t)
+			}
 		}
-	}
-	if hang {
-		return []string{"2"}
-	}
-	// a registration issued after all the others have returned (thread n, process 0): the semaphore must be free
-	if !mkThread(n, 0) {
-		return []string{"2"}
-	}
-	for k := 0; k < 5 && phase[n] != 4 && !hang; k++ {
-		release(n)
-	}
-	if hang || phase[n] != 4 {
-		return []string{"2"}
+		for guard := 0; guard < 10*np+10 && !hang; guard++ {
+			moved := false
+			for t := off; t < off+np; t++ {
+				if phase[t] != 4 && !pending[t] {
+					release(t)
+					moved = true
+				}
+			}
+			if !moved {
+				break
+			}
+		}
+		if hang {
+			return []string{"2"}
+		}
+		if pi > 0 { // a phase issued after all earlier calls returned must complete by itself
+			for t := off; t < off+np; t++ {
+				if phase[t] != 4 {
+					return []string{"2"}
+				}
+			}
+		}
+		sample() // end of the phase: no call is in flight
+		off += np
 	}
 
 	out := append([]string{"0"}, trace...)
 	out = append(out, "-1")
-	for t := 0; t <= n; t++ {
+	for t := 0; t < n; t++ {
 		out = append(out, fmt.Sprint(resCode[t]), fmt.Sprint(resVal[t]), fmt.Sprint(retUID[t]))
 	}
 	out = append(out, "-1")
-	for t := 0; t <= n; t++ { // what the index answers for each requested id now
+	for t := 0; t < n; t++ { // what the index answers for each requested id now
 		id := &ptttype.UserID_t{}
 		copy(id[:], ids[t])
 		uid, _ := cache.SearchUserRaw(id, nil)
@@ -551,7 +617,7 @@ func c15Run(args [][]string) []string {
 }
 
 // case: 2|nproc ngor|id pool|initial table  — unscheduled stress: nproc processes x ngor goroutines, each registering every id
-// result: 0 (proc gor idindex code uid)* -1 index ids -1 .PASSWDS ids
+// result: 0 (proc gor idindex code uid)* -1 index ids -1 .PASSWDS ids -1 semaphore value after all calls returned (workers still alive)
 func c15Stress(args [][]string) []string {
 	if len(args) != 4 || len(args[1]) != 2 {
 		return []string{"9"}
@@ -570,6 +636,7 @@ func c15Stress(args [][]string) []string {
 		ok    bool
 	}
 	resc := make(chan wres, nproc)
+	sdone := make(chan int, nproc)
 	ws := make([]*c15Proc, nproc)
 	starts := make([]chan bool, nproc)
 	for p := 0; p < nproc; p++ {
@@ -598,6 +665,7 @@ func c15Stress(args [][]string) []string {
 					r.lines = append(r.lines, fmt.Sprint(p), f[1], f[2], f[3], f[4])
 				case "sdone":
 					r.ok = true
+					sdone <- p
 				}
 			}
 			resc <- r
@@ -624,18 +692,29 @@ func c15Stress(args [][]string) []string {
 		}
 	}
 	for p := 0; p < nproc; p++ { // start them as simultaneously as possible
-		fmt.Fprintf(ws[p].in, "stress %d %s\nquit\n", ngor, strings.Join(c15Enc(pool), " "))
+		fmt.Fprintf(ws[p].in, "stress %d %s\n", ngor, strings.Join(c15Enc(pool), " "))
 	}
 	out := []string{"0"}
 	hang := false
+	for p := 0; p < nproc && !hang; p++ { // every call of every worker has returned; the workers stay alive
+		select {
+		case <-sdone:
+		case <-time.After(40 * time.Second):
+			hang = true
+		}
+	}
+	semval := c15SemVal() // read before any worker exits (SEM_UNDO)
 	for p := 0; p < nproc; p++ {
+		fmt.Fprintln(ws[p].in, "quit")
+	}
+	for p := 0; p < nproc && !hang; p++ {
 		select {
 		case r := <-resc:
 			out = append(out, r.lines...)
 			if !r.ok {
 				hang = true
 			}
-		case <-time.After(40 * time.Second):
+		case <-time.After(10 * time.Second):
 			hang = true
 		}
 		if hang {
@@ -651,6 +730,7 @@ func c15Stress(args [][]string) []string {
 	out = append(out, c15Enc(idx)...)
 	out = append(out, "-1")
 	out = append(out, c15Enc(pwd)...)
+	out = append(out, "-1", fmt.Sprint(semval))
 	return out
 }
 
@@ -664,6 +744,8 @@ func init() {
 				return c15Run(args)
 			case 2:
 				return c15Stress(args)
+			case 3:
+				return c15RunHistory(args)
 			}
 			return []string{"9"}
 		}})
